@@ -107,6 +107,35 @@ let run_hist args =
     String.concat ";" (List.map fmt_obs obs)
   | _ -> "bad-args"
 
+(* ---- webpsan's ChunkDataReader, driven directly: cdr <depth> <stack> <caps> <data> <ops> ----
+   ChunkReader::new wraps the stack in a std BufReader(8); read_any_header = fill_buf (has_remaining), read_exact(8),
+   stream_position; the data reader's state is ReadingBody{len} (or no body when len = 0). *)
+exception Hdr_err
+let le32 (l : Model.byte list) = List.fold_right (fun b acc -> acc * 256 + int_of_byte b) l 0
+let chunk_level (r : Model.reader) (s : Obj.t) : Model.reader * Obj.t =
+  let cap = cn_of_int 8 in
+  let rb = Model.std_buf cap r in
+  let sb = Obj.repr (Model.buf_init r s) in
+  let sb = (match Model.buf_fill cap r (Obj.obj sb) with (Ok _, s') -> Obj.repr s' | _ -> raise Hdr_err) in
+  (match sb |> fun x -> ((Obj.obj x : Obj.t Model.bst).Model.bbuf) with [] -> raise Hdr_err | _ -> ());
+  let (hdr, sb) = (match rb.Model.rread_exact cap sb with (Ok h, s') -> (h, s') | _ -> raise Hdr_err) in
+  let sb = (match rb.Model.rpos sb with (Ok _, s') -> s' | _ -> raise Hdr_err) in
+  let len = le32 (List.filteri (fun i _ -> i >= 4) hdr) in
+  let cs = if len = 0 then Model.CNoBody else Model.CBody (cn_of_int len) in
+  (Model.chunk_data rb, Obj.repr { Model.cstate_of = cs; Model.cinner = sb })
+
+let run_cdr args =
+  match args with
+  | [depth; stack; caps; data; ops] ->
+    (try
+       let (r, s) = build_sync (parse_stack stack) (parse_caps caps) (unhex data) N0 in
+       let (r, s) = chunk_level r s in
+       let (r, s) = if int_of_string depth >= 2 then chunk_level r s else (r, s) in
+       let (obs, _) = Model.run_ops r (parse_ops ops) s in
+       String.concat ";" (List.map fmt_obs obs)
+     with Hdr_err -> "hdr-err")
+  | _ -> "bad-args"
+
 (* ---- poll-level ---- *)
 let parse_bits s : bool list =
   if s = "-" then []
@@ -202,6 +231,7 @@ let dispatch kind args =
     match kind with
     | "hist" -> run_hist args
     | "sched" -> run_sched args
+    | "cdr" -> run_cdr args
     | "sanasync" -> run_sanasync args
     | _ -> "unknown-kind " ^ kind
   with
